@@ -4,6 +4,7 @@
    the start-up conditions and the bound in real / integer arithmetic. *)
 From Coq Require Import ZArith List Bool Lia Reals Lra Psatz.
 From ST Require Import Base.Ints Base.F64 Base.Sorting Model.NtpTime Model.Units Model.Ftm Model.Sync.
+From ST Require Proofs.FtmProofs.
 From Flocq Require Import Core.Core IEEE754.BinarySingleNaN.
 Import ListNotations.
 Open Scope Z_scope.
@@ -375,30 +376,46 @@ Qed.
 Lemma dabs_abs po : po <> min_i64 -> in_i64 po -> dabs po = Z.abs po.
 Proof. unfold dabs, in_i64, min_i64, max_i64. intros. destruct (0 <=? po) eqn:A; [lia|]. destruct (po =? _) eqn:B; lia. Qed.
 
-Lemma round_ok_model cfg rm pm nref npeer ro po kr kp :
+Lemma peer_small_facts cfg po : in_i64 po -> peer_small cfg po = true ->
+  (c_cutoff cfg <? dabs po) = false /\ po <> min_i64.
+Proof.
+  unfold peer_small. intros I H. apply andb_prop in H. destruct H as [A B].
+  apply Z.leb_le in A. apply Z.ltb_lt in B. change (2^62) with 4611686018427387904 in B.
+  assert (N : po <> min_i64) by (unfold min_i64; lia).
+  split; [|exact N]. rewrite (dabs_abs po N I). apply Z.ltb_ge. exact A.
+Qed.
+
+Lemma round_ok_model cfg rm pm nref npeer pe ro po kr kp :
   cap_ok rm -> cap_ok pm -> in_i64 ro -> in_i64 po ->
   (kr = None \/ kr = Some ro) -> (kp = None \/ (kp = Some po /\ po <> min_i64)) ->
-  round_ok cfg rm pm nref npeer kr kp (Sync.round cfg rm pm nref npeer ro po) = true.
+  (pe = true -> peer_small cfg po = true) ->
+  round_ok cfg rm pm nref npeer pe kr kp (Sync.round cfg rm pm nref npeer ro po) = true.
 Proof.
-  intros Hr Hp Iro Ipo Kr Kp.
+  intros Hr Hp Iro Ipo Kr Kp Hpe.
   rewrite round_shape by assumption.
   destruct (bounded_facts rm ro Hr Iro) as [Wr Ir]. destruct (bounded_facts pm po Hp Ipo) as [Wp Ip].
   assert (Kcut : forall x, kp = Some x -> (Z.abs x <=? c_cutoff cfg) = negb (c_cutoff cfg <? dabs po) /\ x = po).
   { intros x E. destruct Kp as [K|[K Hn]]; [congruence|]. assert (x = po) by congruence. subst x.
     rewrite (dabs_abs po Hn Ipo). split; [|reflexivity]. destruct (Z.abs po <=? c_cutoff cfg) eqn:A, (c_cutoff cfg <? Z.abs po) eqn:B; try reflexivity; lia. }
+  assert (Pe : pe = true -> (c_cutoff cfg <? dabs po) = false).
+  { intros E. apply (peer_small_facts cfg po Ipo (Hpe E)). }
   unfold round_ok, contributes.
   destruct nref as [|nr], npeer as [|np]; cbn [Nat.eqb negb andb].
   - reflexivity.
   - (* peers only *)
     destruct (c_cutoff cfg <? dabs po) eqn:C.
-    + rewrite Wp, orb_true_r. cbn [andb]. destruct kp as [x|]; [|reflexivity].
+    + rewrite Wp, orb_true_r. cbn [andb].
+      destruct pe; [specialize (Pe eq_refl); discriminate Pe|]. cbn [andb].
+      destruct kp as [x|]; [|reflexivity].
       destruct (Kcut x eq_refl) as [E ->]. rewrite E. cbn. apply Z.eqb_refl.
-    + cbn. destruct kp as [x|]; [|reflexivity]. destruct (Kcut x eq_refl) as [E ->]. rewrite E. reflexivity.
+    + cbn. replace (if pe then true else true) with true by (destruct pe; reflexivity). cbn.
+      destruct kp as [x|]; [|reflexivity]. destruct (Kcut x eq_refl) as [E ->]. rewrite E. reflexivity.
   - (* reference clocks only *)
     rewrite Wr. cbn [andb]. destruct Kr as [-> | ->]; [reflexivity|apply Z.eqb_refl].
   - (* both *)
     destruct (c_cutoff cfg <? dabs po) eqn:C.
-    + apply andb_true_intro. split.
+    + destruct pe; [specialize (Pe eq_refl); discriminate Pe|].
+      apply andb_true_intro. split; [apply andb_true_intro; split; [|reflexivity]|].
       * match goal with |- (if ?b then _ else _) = true => destruct b eqn:SN; [|reflexivity] end.
         apply orb_true_iff in SN. destruct SN as [SN|SN].
         -- apply andb_prop in SN. destruct SN as [Sr Sp]. apply midpoint_within; assumption.
@@ -410,8 +427,9 @@ Proof.
         -- destruct (Kcut x eq_refl) as [E ->]. destruct Kr as [-> | ->]; [rewrite E; reflexivity|].
            rewrite E. cbn. apply Z.eqb_refl.
         -- destruct kr; reflexivity.
-    + apply andb_true_intro. split.
+    + apply andb_true_intro. split; [apply andb_true_intro; split|].
       * rewrite Wr. cbn. match goal with |- (if ?b then _ else _) = true => destruct b; reflexivity end.
+      * rewrite Wr. destruct pe; reflexivity.
       * destruct kp as [x|].
         -- destruct (Kcut x eq_refl) as [E ->]. rewrite E. cbn. destruct Kr as [-> | ->]; [exact Wr|apply Z.eqb_refl].
         -- destruct kr; reflexivity.
@@ -631,21 +649,83 @@ Qed.
 Lemma repeat_length' {A} (x : A) n : length (repeat x n) = n.
 Proof. apply repeat_length. Qed.
 
+(* ---- stale values: when every value in a slice and every arrival is small, so is the aggregated offset ---- *)
+Definition psmall (cfg : config) (v : Z) : Prop := peer_small cfg v = true.
+
+Lemma psmall_abs cfg v : psmall cfg v <-> Z.abs v <= c_cutoff cfg /\ Z.abs v < 2^62.
+Proof. unfold psmall, peer_small. rewrite andb_true_iff, Z.leb_le, Z.ltb_lt. tauto. Qed.
+
+Lemma In_firstn_in {A} (l : list A) n x : In x (firstn n l) -> In x l.
+Proof. revert n. induction l as [|y r IH]; intros [|n] H; cbn in *; try contradiction. destruct H; [left; assumption|right; eauto]. Qed.
+
+Lemma In_skipn_in {A} (l : list A) n x : In x (skipn n l) -> In x l.
+Proof. revert n. induction l as [|y r IH]; intros [|n] H; cbn in *; try contradiction; try assumption. right; eauto. Qed.
+
+Lemma ftm_small cfg X o : X <> [] -> Forall (psmall cfg) X -> ftm X = Some o -> psmall cfg o.
+Proof.
+  intros Hne HF E. rewrite Forall_forall in HF.
+  set (l := map (fun v => (v, true)) X).
+  assert (Ml : map fst l = X) by (unfold l; rewrite map_map; cbn; apply map_id).
+  destruct (FtmProofs.ftm_contained l) as [res [lo [hi [R [L [H B]]]]]].
+  - unfold l. destruct X; [congruence|discriminate].
+  - assert (N : nbad l = 0%nat).
+    { unfold l, nbad. clear. induction X as [|x r IH]; [reflexivity|]. cbn. exact IH. }
+    rewrite N. lia.
+  - intros x Hx. unfold l in Hx. apply in_map_iff in Hx. destruct Hx as [v [<- Hv]]. cbn.
+    apply (psmall_abs cfg v), HF. exact Hv.
+  - rewrite Ml in R. assert (res = o) by congruence. subst res.
+    assert (Lo : psmall cfg lo). { unfold l in L. apply in_map_iff in L. destruct L as [v [Ev Hv]]. inversion Ev. subst v. apply HF, Hv. }
+    assert (Hi : psmall cfg hi). { unfold l in H. apply in_map_iff in H. destruct H as [v [Ev Hv]]. inversion Ev. subst v. apply HF, Hv. }
+    apply psmall_abs in Lo. apply psmall_abs in Hi. apply psmall_abs. lia.
+Qed.
+
+Lemma measure_small cfg old arr s' o : psmall cfg 0 -> Forall (psmall cfg) old -> Forall (psmall cfg) arr ->
+  measure old arr = (s', o) -> Forall (psmall cfg) s' /\ psmall cfg o.
+Proof.
+  intros H0 Ho Ha M. unfold measure in M. destruct old as [|x old'].
+  - inversion M. split; [constructor|exact H0].
+  - inversion M as [[E1 E2]]. clear M.
+    set (old := x :: old') in *. unfold collect.
+    set (X := firstn (length old) arr ++ skipn (length (firstn (length old) arr)) old).
+    assert (FX : Forall (psmall cfg) X).
+    { rewrite Forall_forall in *. intros v Hv. unfold X in Hv. apply in_app_or in Hv. destruct Hv as [Hv|Hv].
+      - apply Ha. eapply In_firstn_in. exact Hv.
+      - apply Ho. eapply In_skipn_in. exact Hv. }
+    assert (PX : Permutation.Permutation X (zsort X)) by apply FtmProofs.only_reorders.
+    split.
+    + rewrite Forall_forall in *. intros v Hv. apply FX. apply (Permutation.Permutation_in _ (Permutation.Permutation_sym PX)). exact Hv.
+    + assert (LX : length X = length old).
+      { pose proof (collect_length old arr) as CL. unfold collect in CL. fold X in CL. rewrite zsort_length in CL. exact CL. }
+      apply (ftm_small cfg X); [intros EX; rewrite EX in LX; discriminate LX|exact FX|].
+      unfold ftm. destruct X; [discriminate LX|reflexivity].
+Qed.
+
+Lemma timely_small cfg l : forallb (peer_small cfg) (timely l) = true -> Forall (psmall cfg) (timely l).
+Proof. intros H. rewrite Forall_forall. intros v Hv. rewrite forallb_forall in H. apply H. exact Hv. Qed.
+
 (* ---- all rounds ---- *)
 Lemma loop_ok cfg rm pm nref npeer rs : cap_ok rm -> cap_ok pm ->
-  forall sref speer, length sref = nref -> length speer = peer_slots npeer ->
-  rounds_ok cfg rm pm nref npeer rs (loop cfg rm pm nref npeer rs sref speer) = true.
+  forall pe sref speer, length sref = nref -> length speer = peer_slots npeer ->
+  (pe = true -> psmall cfg 0 /\ Forall (psmall cfg) speer) ->
+  rounds_ok cfg rm pm nref npeer pe rs (loop cfg rm pm nref npeer rs sref speer) = true.
 Proof.
-  intros Hr Hp. induction rs as [|r rest IH]; intros sref speer L1 L2; [reflexivity|].
+  intros Hr Hp. induction rs as [|r rest IH]; intros pe sref speer L1 L2 Inv; [reflexivity|].
   cbn [loop].
   destruct (measure sref (timely (r_ref r))) as [sref' ro] eqn:M1.
   destruct (measure speer (peer_arrivals npeer (r_peer r))) as [speer' po] eqn:M2.
   destruct (measure_facts _ _ _ _ M1) as [L1' I1]. destruct (measure_facts _ _ _ _ M2) as [L2' I2].
   cbn [rounds_ok]. rewrite Z.eqb_refl. cbn [andb].
+  set (pe' := pe && forallb (peer_small cfg) (timely (r_peer r))).
+  assert (Inv' : pe' = true -> psmall cfg 0 /\ Forall (psmall cfg) speer' /\ psmall cfg po).
+  { intros E. unfold pe' in E. apply andb_prop in E. destruct E as [E1 E2]. destruct (Inv E1) as [Z0 Fs].
+    split; [exact Z0|]. apply (measure_small cfg speer (peer_arrivals npeer (r_peer r))); try assumption.
+    unfold peer_arrivals. destruct npeer; [constructor|].
+    apply Forall_app. split; [apply timely_small; exact E2|constructor; [exact Z0|constructor]]. }
   rewrite round_ok_model; try assumption.
-  - cbn [andb]. apply IH; congruence.
+  - cbn [andb]. apply IH; try congruence. intros E. destruct (Inv' E) as [A [B _]]. split; assumption.
   - eapply known_ref_ok; eassumption.
   - eapply known_peer_ok; eassumption.
+  - intros E. apply (Inv' E).
 Qed.
 
 Lemma drift_calls_loop cfg rm pm nref npeer rs sref speer :
@@ -656,20 +736,25 @@ Proof.
 Qed.
 
 (* ---- the whole run satisfies the property oracle ---- *)
-Theorem run_oracle cfg D nref npeer rs : in_i64 (c_interval cfg) -> in_i64 D ->
-  C01_ok cfg nref npeer rs (run cfg D nref npeer rs) = true.
+Theorem run_oracle_env env cfg D nref npeer rs : in_i64 (c_interval cfg) -> in_i64 D ->
+  C01_ok_env env cfg nref npeer rs (run cfg D nref npeer rs) = true.
 Proof.
-  intros Ii ID. unfold C01_ok, run.
+  intros Ii ID. unfold C01_ok_env, run.
   pose proof (prologue_cases cfg D Ii ID) as P.
   destruct (prologue cfg D) as [code nd|rm pm].
   - destruct P as [[-> ->] | [-> [Dn ->]]]; [reflexivity|].
     cbn. rewrite Z.eqb_refl. cbn. destruct (0 <? D) eqn:E; [lia|]. reflexivity.
   - destruct P as [-> [Dp [-> [-> [Cr Cp]]]]]. cbn [drift_calls].
-    rewrite drift_calls_loop. cbn. rewrite Z.eqb_refl. cbn.
-    destruct (0 <? D) eqn:E; [|lia]. cbn.
-    apply loop_ok; try assumption; [apply repeat_length|].
-    rewrite repeat_length. reflexivity.
+    rewrite drift_calls_loop. cbn [forallb fst snd last]. rewrite Z.eqb_refl. cbn [andb].
+    destruct (0 <? D) eqn:E; [|lia]. cbn [andb negb].
+    apply loop_ok; try assumption; [apply repeat_length|rewrite repeat_length; reflexivity|].
+    intros H. apply andb_prop in H. destruct H as [_ H]. split; [exact H|].
+    apply Forall_forall. intros v Hv. apply repeat_spec in Hv. subst v. exact H.
 Qed.
+
+Theorem run_oracle cfg D nref npeer rs : in_i64 (c_interval cfg) -> in_i64 D ->
+  C01_ok cfg nref npeer rs (run cfg D nref npeer rs) = true.
+Proof. apply run_oracle_env. Qed.
 
 (* ---- the start-up conditions in real numbers ---- *)
 Lemma fsub_one_gt1 p : is_finite p = true -> (1 < B2R p)%R ->
